@@ -280,7 +280,15 @@ func (s *session) setVersion(r *sessionRecord, v *version) {
 				added   = make([]int64, 0, len(r.addedTables))
 				deleted = make([]int64, 0, len(r.deletedTables))
 			)
+			// The record of the first commit of a session also lists every
+			// table of the new version (see newManifest), so a table it
+			// adds may be listed twice: count it once.
+			seen := make(map[int64]struct{}, len(r.addedTables))
 			for _, t := range r.addedTables {
+				if _, ok := seen[t.num]; ok {
+					continue
+				}
+				seen[t.num] = struct{}{}
 				added = append(added, t.num)
 			}
 			for _, t := range r.deletedTables {
